@@ -58,6 +58,8 @@ type Op struct {
 	T         string `json:"t,omitempty"`
 	N         *Noti  `json:"n,omitempty"`
 	Subscribe bool   `json:"subscribe,omitempty"`
+	Break     bool   `json:"break,omitempty"` // target T's stream fails here; the next session continues the script
+	DelayUS   int    `json:"delay_us,omitempty"` // the target waits this long before sending the message
 }
 
 // ReqCfg is a named SubscribeRequest of the collector configuration.
@@ -78,6 +80,7 @@ type TargetCfg struct {
 type ClientSpec struct {
 	Prefix GPath `json:"pre"`
 	Path   GPath `json:"path"`
+	Slow   int   `json:"slow,omitempty"` // microseconds the client spends on every notification
 }
 
 // CliSpec is a gnmi_cli ONCE query for Target with Query (element names), to be
@@ -95,6 +98,7 @@ type Case struct {
 	Ops      []Op         `json:"ops"`
 	Clients  []ClientSpec `json:"clients"`
 	Cli      []CliSpec    `json:"cli"`
+	NoPace   bool         `json:"nopace,omitempty"` // targets send their later messages back to back
 	Obs      *Obs         `json:"obs,omitempty"`
 }
 
@@ -495,7 +499,11 @@ func gallina(n *vh.Names, c *Case, addrOf map[string]string) string {
 			if o.T != nm {
 				continue
 			}
-			items = append(items, p.item(o.N))
+			if o.Break {
+				items = append(items, "IReset")
+			} else {
+				items = append(items, p.item(o.N))
+			}
 			if !subscribed {
 				before++
 			}
